@@ -348,6 +348,8 @@ def gen_case(rng, idx, tier):
             v['bound_style'] = ['obj', 'row'][int(rng.integers(2))]
         if rng.random() < 0.4:
             v['loose_bounds'] = int(rng.integers(1, 1 << 20))
+        if rng.random() < 0.5:
+            v['mult_into_arg'] = True
         vs.append(v)
     return {'kind': 'det', 'spec': spec, 'variants': vs}
 
